@@ -11,6 +11,7 @@ import (
 	"go/token"
 	"go/types"
 	"os"
+	"strings"
 	"unsafe"
 
 	"golang.org/x/tools/go/ssa"
@@ -1175,7 +1176,7 @@ func callBuiltin(caller *frame, callpos token.Pos, fn *ssa.Builtin, args []value
 func rangeIter(fr *frame, x value, t types.Type) iter {
 	switch x := x.(type) {
 	case *omap:
-		return x.iter()
+		return mapOrderIter(fr, x)
 	case string, symstr:
 		return &stringIter{bs: strBytes(x), p: fr.i.path}
 	}
@@ -1584,4 +1585,30 @@ func fandbits[F floaty](x, y F) F {
 		*(*uint64)(unsafe.Pointer(&x)) &= *(*uint64)(unsafe.Pointer(&y))
 	}
 	return x
+}
+
+// mapOrderIter: Go's map iteration starts at a random position. After
+// h.SymbolicMapOrder(n) the first n range statements over maps with two or
+// more entries, executed by code of the program under test (not by harness
+// files), start at a rotation chosen as a symbolic choice; otherwise insertion
+// order is used. For maps of up to 8 entries (one bucket, no deletions) the
+// rotations are exactly the orders the Go 1.23 runtime produces.
+func mapOrderIter(fr *frame, m *omap) iter {
+	it := m.iter().(*omapIter)
+	s := fr.i.path.sched
+	if s == nil || s.mapOrder <= 0 || len(it.ents) < 2 || fr.fn == nil {
+		return it
+	}
+	file := fr.i.prog.Fset.Position(fr.fn.Pos()).Filename
+	if strings.Contains(file, "zz_verif") || !strings.Contains(file, "/repo/") {
+		return it
+	}
+	s.mapOrder--
+	k := fr.i.path.choose(len(it.ents), "maporder")
+	if k > 0 {
+		rot := append(append([]*oentry(nil), it.ents[k:]...), it.ents[:k]...)
+		it.ents = rot
+		fr.i.path.note("map iteration in %s starts at entry %d of %d", fr.fn.Name(), k, len(rot))
+	}
+	return it
 }
